@@ -59,7 +59,11 @@ def post(prop, tier, seed, res):
             if sum(1 for o in ops if o.split(":")[0] in ("T", "safeT", "apitranspose", "rollaxis")) >= 2:
                 return "composed-transposes"
             return "in-domain"
-        dcls = [(l.rstrip("\n").split("\t") + ["", "", ""])[2] for l in open(cases + ".model")]
+        dcls = []
+        for l in open(cases + ".model"):
+            parts = l.rstrip("\n").split("\t") + ["", "", "", ""]
+            # the default build's finding class, else the first step outside the guarded domain
+            dcls.append(parts[2] or (parts[3] and parts[3] + ":latent"))
         # class of a build difference: the build plus the class the DEFAULT build's case falls in
         # ("in-domain" = inside the hypotheses of the theorems)
         diff = [dict(case=a.split(" => ")[0], impl=b.split(" => ", 1)[1], model=a.split(" => ", 1)[1], spec="(default build)",
